@@ -569,19 +569,28 @@ func c02FuseCount(r *Report, rule string) {
 			}
 			isFull := isStdCall(c, "io", "", "ReadFull") || isStdCall(c, "io", "", "ReadAtLeast")
 			isRead := c.Call.IsInvoke() && c.Call.Method.Name() == "Read"
+			if h := c.Call.StaticCallee(); h != nil && !c.Call.IsInvoke() && h.Name() == "Read" && relPkg(h) == "tor" && len(c.Call.Args) == 2 {
+				isRead = true // handle.reader.Read(buf[n:]) in a loop that accumulates the counts
+			}
 			if !isFull && !isRead {
 				return
 			}
-			// the destination: a load of the response's Data field
+			// the destination: (a re-slice of) the response's Data field
 			dst := c.Call.Args[len(c.Call.Args)-1]
 			if isFull {
 				dst = c.Call.Args[1]
 			}
-			fv, _ := loadedFieldAny(strip(dst))
-			if fv == nil || fv.Name() != "Data" {
-				if sl, isSl := strip(dst).(*ssa.Slice); isSl {
-					fv, _ = loadedFieldAny(sl.X)
+			var fv *types.Var
+			for v, i := strip(dst), 0; v != nil && i < 4; i++ {
+				if f2, _ := loadedFieldAny(v); f2 != nil {
+					fv = f2
+					break
 				}
+				sl, isSl := v.(*ssa.Slice)
+				if !isSl {
+					break
+				}
+				v = strip(sl.X)
 			}
 			if fv == nil || fv.Name() != "Data" {
 				return
@@ -589,6 +598,23 @@ func c02FuseCount(r *Report, rule string) {
 			n++
 			r.Fn(f)
 			cnt := extractOf(c, 0)
+			isCnt := func(v ssa.Value) bool {
+				if cnt == nil {
+					return false
+				}
+				if stripIntConv(v) == ssa.Value(cnt) {
+					return true
+				}
+				if _, isK := stripIntConv(v).(*ssa.Const); isK {
+					return false
+				}
+				return sumsOnlyOf(stripIntConv(v), func(x ssa.Value) bool {
+					if k, isk := constInt(x); isk && k == 0 {
+						return true
+					}
+					return x == ssa.Value(cnt)
+				})
+			}
 			resliced := func(i ssa.Instruction) bool {
 				st, ok := i.(*ssa.Store)
 				if !ok {
@@ -599,7 +625,7 @@ func c02FuseCount(r *Report, rule string) {
 					return false
 				}
 				sl, ok := st.Val.(*ssa.Slice)
-				return ok && sl.High != nil && cnt != nil && stripIntConv(sl.High) == ssa.Value(cnt)
+				return ok && sl.High != nil && isCnt(sl.High)
 			}
 			exits := exitsAvoiding(c, resliced, false)
 			msg := ""
